@@ -62,8 +62,11 @@ def canon(o, depth=0):
 class Recorder:
     def __init__(self):
         self.trace = []
+        self.closed = False
     def log(self, *args):
-        if len(self.trace) < 5000:
+        # after the program finished, CPython finalises suspended generators
+        # (GeneratorExit -> finally blocks run): not part of the history
+        if not self.closed and len(self.trace) < 5000:
             self.trace.append(" ".join(canon(a) for a in args))
     def tick(self, *args):
         pass
@@ -115,7 +118,9 @@ def run_one(p):
             exec(code, g, g)
         except BaseException as e:
             exc = norm(type(e).__name__)
+        rec.closed = True
     finally:
+        rec.closed = True
         for k in list(sys.modules):
             if k not in saved_modules:
                 del sys.modules[k]
